@@ -2,40 +2,43 @@
   Specification oracle used by the acceptor: for an operation name and the
   tables of its operands, the table the result must have (or the error code the
   call must raise).  These are the Layer-0 definitions (Spec/*): the most naive
-  reading of each operation.
+  reading of each operation.  Plugins (Driver/P_*.lean) add operations; each
+  returns `none` for names it does not know.
 -/
 import MeddlyModel
+import Driver.Base
 
 namespace Meddly
 namespace Ops
 open Spec
 
-/-- kind lookup: forest name ↦ (isRelation, range, labeling) -/
-abbrev KindOf := String → Option (Bool × String × String)
+/-- kind lookup: forest name ↦ (isRelation, range, labeling, rule) -/
+abbrev KindOf := String → Option (Bool × String × String × String)
 
-def vbool : Val → Bool := Val.isTrue
+/-- signature of a spec plugin -/
+abbrev SpecFn := Array Nat → KindOf → String → List (String × Table) → List (String × String) →
+    Option (Except String Table)
 
 def boolOp (f : Bool → Bool → Bool) (x y : Val) : Except String Val :=
   match x, y with
   | .b a, .b b => .ok (.b (f a b))
   | _, _ => .error "TYPE_MISMATCH"
 
-/-- transparent value of a forest kind -/
-def zeroOfKind (k : Bool × String × String) : Val :=
-  if k.2.2 == "evp" || k.2.2 == "idx" then .inf
+def zeroOfKind (k : Bool × String × String × String) : Val :=
+  if k.2.2.1 == "evp" || k.2.2.1 == "idx" then .inf
   else if k.2.1 == "bool" then .b false
   else if k.2.1 == "int" then .i 0
   else .r 0 0
 
-def spec (dom : Array Nat) (kindOf : KindOf) (op : String) (args : List (String × Table))
-    (scalars : List (String × String)) : Except String Table :=
-  let _ := dom; let _ := kindOf; let _ := scalars
+/-- C04: set algebra -/
+def specSet : SpecFn := fun _ _ op args _ =>
   match op, args with
-  | "UNION", [(_, a), (_, b)] => pointwise2 (boolOp (· || ·)) a b
-  | "INTERSECTION", [(_, a), (_, b)] => pointwise2 (boolOp (· && ·)) a b
-  | "DIFFERENCE", [(_, a), (_, b)] => pointwise2 (boolOp (fun x y => x && !y)) a b
-  | "COMPLEMENT", [(_, a)] => pointwise1 (fun x => match x with | .b v => .ok (.b (!v)) | _ => .error "TYPE_MISMATCH") a
-  | _, _ => .error s!"SPEC-UNKNOWN {op}"
+  | "UNION", [(_, a), (_, b)] => some (pointwise2 (boolOp (· || ·)) a b)
+  | "INTERSECTION", [(_, a), (_, b)] => some (pointwise2 (boolOp (· && ·)) a b)
+  | "DIFFERENCE", [(_, a), (_, b)] => some (pointwise2 (boolOp (fun x y => x && !y)) a b)
+  | "COMPLEMENT", [(_, a)] =>
+    some (pointwise1 (fun x => match x with | .b v => .ok (.b (!v)) | _ => .error "TYPE_MISMATCH") a)
+  | _, _ => none
 
 end Ops
 end Meddly
